@@ -39,6 +39,7 @@ type DisputeMonitor struct {
 	refundClaims map[string]bool     // id|payer
 	rewardClaims map[string]bool     // id|voter
 	rewardPaid   map[string]math.Int // dispute hash -> what voters have taken out so far
+	blockInfo    map[string]string   // dispute hash -> the totals recorded at the dispute's block, as first seen
 	divisions    int64               // truncating divisions performed by refunds / rewards
 	bal          math.Int            // dispute module balance at last observation
 	stake        map[string]math.Int
@@ -129,6 +130,18 @@ var allowedTransitions = map[[2]disputetypes.DisputeStatus]bool{
 // observe compares the dispute collections with the shadow state and returns what changed.
 func (m *DisputeMonitor) observe(c *Chain, ctx sdk.Context, where string) (created, fundedNow, tallied []uint64) {
 	ds, vs := m.snapshot(c, ctx)
+	// "reporting stake and tips taken as of the dispute's block": the totals recorded for a dispute never change
+	if m.blockInfo == nil {
+		m.blockInfo = map[string]string{}
+	}
+	_ = c.App.DisputeKeeper.BlockInfo.Walk(ctx, nil, func(h []byte, bi disputetypes.BlockInfo) (bool, error) {
+		cur := bi.TotalReporterPower.String() + "/" + bi.TotalUserTips.String()
+		if old, ok := m.blockInfo[string(h)]; ok && old != cur {
+			c.Violate("C12", "dispute", "totals-recorded-at-the-disputes-block-changed-later", map[string]interface{}{"hash": fmt.Sprintf("%x", h)[:8], "was": old, "now": cur, "where": where})
+		}
+		m.blockInfo[string(h)] = cur
+		return false, nil
+	})
 	ids := make([]uint64, 0, len(ds))
 	for id := range ds {
 		ids = append(ids, id)
@@ -413,6 +426,18 @@ func (m *DisputeMonitor) AfterTx(c *Chain, ctx sdk.Context, tx sdk.Tx, ok bool) 
 					m.fromBondHash[string(d.HashId)] = true
 				}
 				m.checkAcceptedEvidence(c, ctx, d)
+				// what enters escrow is what is recorded: the fee paid so far, plus the stake once the dispute is funded
+				// (less is the known collection rounding; more is money nobody can ever claim)
+				rec := d.FeeTotal
+				if has, _ := c.App.ReporterKeeper.DisputedDelegationAmounts.Has(ctx, d.HashId); has && d.DisputeRound == 1 {
+					rec = rec.Add(d.SlashAmount)
+				}
+				if d.DisputeRound == 1 {
+					m.st.Bucket("c13|pay-in|offer-vs-fee=%d", x.Fee.Amount.BigInt().Cmp(d.SlashAmount.BigInt()))
+					if dBal.GT(rec) {
+						c.Violate("C13", "dispute", "more-taken-into-escrow-than-recorded", map[string]interface{}{"id": id, "entered_escrow": dBal.String(), "recorded_fee_plus_stake": rec.String(), "offered": x.Fee.Amount.String()})
+					}
+				}
 			}
 		case *disputetypes.MsgAddFeeToDispute:
 			if d, ok := m.disputes[x.DisputeId]; ok {
